@@ -9,6 +9,8 @@ import (
 	"sort"
 	"strconv"
 	"strings"
+	"sync"
+	"sync/atomic"
 
 	. "verifharness/core"
 
@@ -254,6 +256,14 @@ func (e *mgrEngine) Step(ws []string, o *Out) string {
 			o.Fail("C04", "lookup-unsound", Hx(ep)+" node="+Hx(n.ID))
 		}
 		return "sel remote " + Hx(n.ID)
+	case "conc":
+		// concurrent stress on a FRESH manager stack (independent of the case's state): G goroutines
+		// add/remove/select a small SHARED set of upstream objects, so removals race with adds of the
+		// same upstream (the proxy dropping a gone upstream while its handler is still registering or
+		// deregistering it).  Every call is atomic under the manager mutex, hence any interleaving is
+		// some sequential op list and C05_counts applies: at quiescence the three stores must agree.
+		e.concStress(Atoi(ws[1]), Atoi(ws[2]), int64(Atoi(ws[3])), o)
+		return "conc done"
 	case "lb.new":
 		e.lb = upstream.VNewLB()
 		return "ok " + e.showLB()
@@ -275,6 +285,114 @@ func (e *mgrEngine) Step(ws []string, o *Out) string {
 		return "next " + strconv.Itoa(u.(*fakeUp).id)
 	}
 	return "bad-op"
+}
+
+func (e *mgrEngine) concStress(goroutines, iters int, seed int64, o *Out) {
+	cs := cluster.NewState(&cluster.Node{ID: "c0", ProxyAddr: "p", AdminAddr: "a"}, log.NewNopLogger())
+	sy := sgossip.VNewSyncer(cs, log.NewNopLogger())
+	gs := pgossip.VNewClusterState("c0", "", nopFD{}, sy)
+	sy.Sync(gs)
+	mgr := upstream.NewLoadBalancedManager(cs, nil)
+	eps := []string{"e1", "e2"}
+	var ups []*fakeUp
+	for i := 0; i < 3; i++ {
+		ups = append(ups, &fakeUp{id: i, ep: eps[i%2]})
+	}
+	var wg sync.WaitGroup
+	for g := 0; g < goroutines; g++ {
+		wg.Add(1)
+		go func(g int) {
+			defer wg.Done()
+			defer func() {
+				if r := recover(); r != nil {
+					o.Count("conc:panic")
+				}
+			}()
+			r := rand.New(rand.NewSource(seed*7919 + int64(g)))
+			for i := 0; i < iters; i++ {
+				u := ups[r.Intn(len(ups))]
+				switch r.Intn(5) {
+				case 0, 1:
+					mgr.AddConn(u)
+				case 2, 3:
+					mgr.RemoveConn(u)
+				default:
+					mgr.Select(u.ep, r.Intn(2) == 0)
+				}
+			}
+		}(g)
+	}
+	wg.Wait()
+	if o.Stats["conc:panic"] > 0 {
+		o.Fail("C05", "panic-in-concurrent-use", "")
+	}
+	// drain: remove everything that is still registered, repeatedly (duplicate removals are no-ops)
+	for pass := 0; pass < 2; pass++ {
+		reg := ShowCounts(mgr.Endpoints())
+		loc := ShowCounts(cs.LocalNode().Endpoints)
+		adv := map[string]int{}
+		for _, en := range gs.LocalNode().Entries {
+			if en.Internal || en.Deleted || !strings.HasPrefix(en.Key, "endpoint:") {
+				continue
+			}
+			n, _ := strconv.Atoi(en.Value)
+			adv[strings.TrimPrefix(en.Key, "endpoint:")] = n
+		}
+		if reg != loc || reg != ShowCounts(adv) {
+			o.Fail("C05", "quiescent-stores-differ-after-concurrency", fmt.Sprintf("pass=%d registered=%s cluster=%s advertised=%s", pass, reg, loc, ShowCounts(adv)))
+			return
+		}
+		for _, u := range ups {
+			for k := 0; k < 64; k++ { // an upstream may have been added many times
+				mgr.RemoveConn(u)
+			}
+		}
+	}
+	o.Count("oracle:C05:conc")
+	// C15 under concurrency: a stable set of n upstreams, G goroutines selecting at the same time;
+	// calls are serialised by the manager mutex, so G*M selections (a multiple of n) return each
+	// upstream exactly G*M/n times, never nil/not-found, never a panic.
+	mgr2 := upstream.NewLoadBalancedManager(cluster.NewState(&cluster.Node{ID: "c1"}, log.NewNopLogger()), nil)
+	stable := []*fakeUp{{id: 0, ep: "s"}, {id: 1, ep: "s"}, {id: 2, ep: "s"}}
+	for _, u := range stable {
+		mgr2.AddConn(u)
+	}
+	const perG = 6000 // multiple of 3
+	counts := make([][3]int, goroutines)
+	var bad, panics int64
+	var wg2 sync.WaitGroup
+	for g := 0; g < goroutines; g++ {
+		wg2.Add(1)
+		go func(g int) {
+			defer wg2.Done()
+			defer func() {
+				if r := recover(); r != nil {
+					atomic.AddInt64(&panics, 1)
+				}
+			}()
+			for i := 0; i < perG; i++ {
+				u, ok := mgr2.Select("s", false)
+				fu, isFake := u.(*fakeUp)
+				if !ok || !isFake || fu.ep != "s" {
+					atomic.AddInt64(&bad, 1)
+					continue
+				}
+				counts[g][fu.id]++
+			}
+		}(g)
+	}
+	wg2.Wait()
+	var tot [3]int
+	for _, c := range counts {
+		for i := range tot {
+			tot[i] += c[i]
+		}
+	}
+	want := goroutines * perG / 3
+	if panics > 0 || bad > 0 || tot[0] != want || tot[1] != want || tot[2] != want {
+		o.Fail("C15", "concurrent-select-unfair-or-invalid", fmt.Sprintf("counts=%v want=%d each bad=%d panics=%d", tot, want, bad, panics))
+	}
+	o.Count("oracle:C15:conc")
 }
 
 func (e *mgrEngine) lbu(id int) *fakeUp {
@@ -363,6 +481,9 @@ func (e *mgrEngine) Gen(r *rand.Rand, n int, tier string, w *bufio.Writer) {
 			default:
 				fmt.Fprintf(w, "sel %s %d\n", Hx(ep), r.Intn(2))
 			}
+		}
+		if c%4 == 0 {
+			fmt.Fprintf(w, "conc %d %d %d\n", 4+r.Intn(5), 400+r.Intn(800), r.Intn(1000000))
 		}
 		// raw balancer
 		fmt.Fprintln(w, "lb.new")
